@@ -226,6 +226,16 @@ func (sg *sqlGen) ensureEnum(str bool) string {
 		cs := &ConstSpec{Names: []string{cn}, OfType: []string{name}}
 		if str {
 			v := fmt.Sprintf("%q", sg.pick("sqlEnumStr", []string{"red", "blue", "on", "off", "x y", "UP"})+fmt.Sprint(i))
+			if len(sg.tables) > 0 && rapid.IntRange(0, 4).Draw(t, "sqlEnumTableWord") == 0 {
+				// a value that spells (or contains as a whole word) the Go name of a table struct
+				tn := sg.tables[rapid.IntRange(0, len(sg.tables)-1).Draw(t, "sqlEnumTable")].name
+				if i == 0 {
+					v = fmt.Sprintf("%q", tn)
+				} else {
+					v = fmt.Sprintf("%q", fmt.Sprintf("%s %d", tn, i))
+				}
+				sg.o.class("enum:string_value_spells_table_name")
+			}
 			if i == 1 && rapid.IntRange(0, 5).Draw(t, "sqlEnumQuote") == 0 && !sg.o.gated("enum_string_quote") {
 				v = `"it's"`
 				sg.o.class("enum:string_with_single_quote")
@@ -554,10 +564,21 @@ func %[1]sArrayToPQ(ids []%[1]s) pq.Int64Array {
 				sg.fresh("Blob")
 				sg.defs.Decls = append(sg.defs.Decls, &Decl{Kind: KNamed, Name: "Blob", Type: Slice(Basic("byte"))})
 			}
-			// []byte columns may be anonymous (bytea needs no converter)
-			if rapid.Bool().Draw(t, "bytesAnon") {
+			// []byte columns may be anonymous (bytea needs no converter); byte and uint8 are two spellings of one type
+			switch rapid.IntRange(0, 4).Draw(t, "bytesForm") {
+			case 0, 1:
 				f.Type = Slice(Basic("byte"))
-			} else {
+			case 2:
+				f.Type = Slice(Basic("uint8"))
+				o.class("sql:bytes_spelled_uint8")
+			case 3:
+				if !sg.used["Digest"] {
+					sg.fresh("Digest")
+					sg.defs.Decls = append(sg.defs.Decls, &Decl{Kind: KNamed, Name: "Digest", Type: Slice(Basic("uint8"))})
+				}
+				f.Type = sg.local("Digest")
+				o.class("sql:bytes_spelled_uint8")
+			default:
 				f.Type = sg.local(bn)
 			}
 		case "arr", "fixarr":
@@ -774,7 +795,7 @@ func (sg *sqlGen) addDirectives(idx int, tb *sqlTable, plainCols, fkFields []str
 		whereCol := all[rapid.IntRange(0, len(all)-1).Draw(t, "queryWhere")]
 		fn := sg.fresh("Query" + tb.name + setCol)
 		var q string
-		switch rapid.IntRange(0, 3).Draw(t, "queryShape") {
+		switch rapid.IntRange(0, 5).Draw(t, "queryShape") {
 		case 0:
 			q = fmt.Sprintf("UPDATE %s SET %s = $newValue$ WHERE %s = $selectV$ ;", tb.name, setCol, whereCol)
 		case 1:
@@ -782,6 +803,13 @@ func (sg *sqlGen) addDirectives(idx int, tb *sqlTable, plainCols, fkFields []str
 			q = fmt.Sprintf("UPDATE %s SET %s = $v$ WHERE %s = $v$ OR %s = $w$;", tb.name, setCol, setCol, whereCol)
 		case 2:
 			q = fmt.Sprintf("DELETE FROM %s WHERE %s = $key$;", tb.name, whereCol)
+		case 3:
+			// placeholder names are free identifiers: upper-case first letters, names differing only by case
+			q = fmt.Sprintf("UPDATE %s SET %s = $NewValue$ WHERE %s = $Key$ ;", tb.name, setCol, whereCol)
+			o.class("directive:query_placeholder_upper_case")
+		case 4:
+			q = fmt.Sprintf("UPDATE %s SET %s = $Val$ WHERE %s = $val$ OR %s = $Val$;", tb.name, setCol, whereCol, setCol)
+			o.class("directive:query_placeholder_upper_case")
 		default:
 			q = fmt.Sprintf("UPDATE %s SET %s = $a$ WHERE %s = $b$ AND %s = $a$;", tb.name, setCol, whereCol, setCol)
 		}
